@@ -69,6 +69,9 @@ const (
 	oTrackRemoteOK
 	oTrackRemoteFail
 	oTrackMeta
+	// two instructions for the same CID: a pin allocated here fails, then the
+	// CID is re-allocated elsewhere (Track of the remote pin, which succeeds)
+	oPinFailThenRemote
 	nOps
 	// refused by a full queue (fullqueue_test.go only; not part of allLetters)
 	oPinRefused   = nOps
@@ -76,7 +79,7 @@ const (
 )
 
 var opName = [...]string{"none", "pin-ok", "pin-failed", "unpin-ok", "unpin-failed", "pin-parked", "pin-queued",
-	"unpin-parked", "track-remote-ok", "track-remote-failed", "track-meta", "pin-refused-queue-full", "unpin-refused-queue-full"}
+	"unpin-parked", "track-remote-ok", "track-remote-failed", "track-meta", "pin-failed-then-track-remote-ok", "pin-refused-queue-full", "unpin-refused-queue-full"}
 
 func (o op) isPinOp() bool {
 	return o == oPinOK || o == oPinFail || o == oPinParked || o == oPinQueued
@@ -127,7 +130,7 @@ func (s sit) String() string {
 func allLetters() []letter {
 	var out []letter
 	for o := op(0); o < nOps; o++ {
-		if o.isPinOp() {
+		if o.isPinOp() || o == oPinFailThenRemote {
 			for _, tp := range []tpClass{tpEverywhere, tpLocalRec, tpLocalDirect} {
 				out = append(out, letter{o, tp})
 			}
@@ -151,7 +154,7 @@ func factsFor(l letter, mode string) []fact {
 			if tpOf(k) != l.TP {
 				continue
 			}
-		case l.O == oTrackRemoteOK || l.O == oTrackRemoteFail:
+		case l.O == oTrackRemoteOK || l.O == oTrackRemoteFail || l.O == oPinFailThenRemote:
 			if k != kRemote {
 				continue
 			}
@@ -505,10 +508,21 @@ func drive(letters []letter) (*env, error) {
 		case oUnpinParked:
 			script["unpin:"+c.String()] = clus.Park
 			err = e.tr.Untrack(e.ctx, c)
+		case oPinFailThenRemote:
+			script["pin:"+c.String()] = clus.Fail
+			err = e.tr.Track(e.ctx, trackedPin(tps[i], c))
+			synctest.Wait()
+			if err == nil {
+				script["unpin:"+c.String()] = clus.Apply
+				err = e.tr.Track(e.ctx, pinFor(kRemote, c))
+			}
 		case oTrackRemoteOK:
 			script["unpin:"+c.String()] = clus.Apply
 			err = e.tr.Track(e.ctx, pinFor(kRemote, c))
 		case oTrackRemoteFail:
+			// the daemon holds the item, so getting rid of it takes an unpin
+			// (which fails)
+			e.model.Set(c, api.IPFSPinStatusRecursive)
 			script["unpin:"+c.String()] = clus.Fail
 			err = e.tr.Track(e.ctx, pinFor(kRemote, c))
 		case oTrackMeta:
@@ -523,7 +537,7 @@ func drive(letters []letter) (*env, error) {
 	// 3. pins queued behind the busy workers.
 	for i := range e.cids {
 		switch e.ops[i] {
-		case oPinOK, oPinFail, oUnpinOK, oUnpinFail, oTrackRemoteOK, oTrackRemoteFail, oTrackMeta:
+		case oPinOK, oPinFail, oUnpinOK, oUnpinFail, oTrackRemoteOK, oTrackRemoteFail, oTrackMeta, oPinFailThenRemote:
 			issue(i)
 		}
 	}
@@ -573,7 +587,13 @@ func drive(letters []letter) (*env, error) {
 			ok = has("pin", c, "ok", "noop")
 		case oPinFail:
 			ok = has("pin", c, "error")
-		case oUnpinOK, oTrackRemoteOK:
+		case oPinFailThenRemote:
+			ok = has("pin", c, "error")
+		case oTrackRemoteOK:
+			// (how the tracker gets rid of a remote item is its business:
+			// an unpin call that succeeded, or none because nothing is held)
+			ok = has("unpin", c, "ok", "noop") || !any("unpin", c)
+		case oUnpinOK:
 			ok = has("unpin", c, "ok", "noop")
 		case oUnpinFail, oTrackRemoteFail:
 			ok = has("unpin", c, "error")
